@@ -48,6 +48,8 @@ MC_CSSTOK = mcc('MC_CssTok', 'MC_CssTok', invariants='(enumeration) every style 
 MC_CSSSYN = mcc('MC_CssSyntax', 'MC_CssSyntax', invariants='Inv_Syntax (on every well-formed sheet the transcription of parse_stylesheet keeps exactly the rule sets the CSS Syntax reference keeps), Inv_Stop (and reads it to the end); every sheet emitted and replayed')
 MC_CSSSYN_DEEP = mcc('MC_CssSyntax', 'MC_CssSyntaxDeep', invariants='Inv_Syntax, Inv_Stop over a smaller alphabet and longer sheets (blocks nested in declaration values)')
 MC_SELECTOR = mcc('MC_Css', 'MC_Selector', invariants='Inv_Selector (RefMatch = DoMatches on every node)')
+MC_SELECTOR_ID = mcc('MC_Css', 'MC_SelectorId', invariants='Inv_Selector over trees and selectors with ids (fewer nodes)')
+MC_SELECTOR_LONG = mcc('MC_Css', 'MC_SelectorLong', invariants='Inv_Selector over selectors of three compounds (fewer nodes, no ids): html / body above the generated nodes give every combinator chain something to walk')
 MC_CASCADE = mcc('MC_Css', 'MC_Cascade', invariants='Inv_Cascade (MaybeUpdate fold = RefCascade)')
 MC_HIDE = mcc('MC_Css', 'MC_Hide', invariants='Inv_Hide (render of styled d = render of DeleteHidden(d))')
 
@@ -192,7 +194,7 @@ PLANS = {
     ),
     'C20': dict(
         fams=[('c20', dict(quick=2500, thorough=50000), {})],
-        mc=[MC_SELECTOR],
+        mc=[MC_SELECTOR, MC_SELECTOR_ID, MC_SELECTOR_LONG],
         nontrivial=lambda rec: bool(rec.get('runs')) and rec['runs'][0]['res']['k'] == 'ok' and any(len(x) > 2 and any(t == ['Fg', 0, 0, 254] for t in x[2]) for ln in rec['runs'][0]['res']['lines'] for x in ln),
         rule='documents of nested div/p/span/em/ul/li/section/b with classes {x,y,z}, ids and mixed text / element children; one author rule with 1-2 selectors of up to 4 compound steps (element, class(es), id, *, descendant and child combinators, :nth-child(an+b | odd | even) with a, b in -5..5) colouring over the agent rule * {color}; the letters coloured by the rule must be exactly those whose parent element Css!RefMatch designates (reference runs on the whole DOM incl. html / head / body); non-trivial = the rule colours at least one letter; distinct by sha256(runs)',
         assumptions=['selector spelling varies in insignificant syntax only'],
@@ -236,6 +238,29 @@ def known_for(prop):
     k = vlib.load_known()
     return ([f for f in k.get('findings', []) if f['property'] == prop],
             [f for f in k.get('fixed', []) if f['property'] == prop])
+
+
+def crash_known(findings, case, rec):
+    """A crashed / timed-out case against the recorded findings that are identified by the kind of crash and the shape
+    of the input (known_findings.json, key `crash_class`): {"crash": kind, "unit": markup, "min_repeat": n} matches a
+    case all of whose runs feed a document that starts with at least n repetitions of the unit."""
+    for f in findings:
+        cc = f.get('crash_class')
+        if not cc or rec.get('crash') != cc['crash']:
+            continue
+        unit = cc['unit'].encode()
+        runs = case.get('runs') or []
+        ok = bool(runs)
+        for r in runs:
+            if r.get('rep'):
+                b = r['rep']['unit'].encode() * r['rep']['n'] + r['rep'].get('tail', '').encode()
+            else:
+                b = bytes.fromhex(r['hx']) if r.get('hx') is not None else (r.get('html') or '').encode()
+            if not b.startswith(unit * cc['min_repeat']):
+                ok = False
+        if ok:
+            return f['id']
+    return None
 
 
 def run_check(prop, tier, seed, t0, no_mc=False):
@@ -411,6 +436,11 @@ def run_check(prop, tier, seed, t0, no_mc=False):
                 known_hits.setdefault(fid, 0)
                 known_hits[fid] += 1
                 continue
+        if r.get('crash') and prop in ('C01', 'C17'):
+            fid = crash_known(findings, c, r)
+            if fid:
+                known_hits[fid] = known_hits.get(fid, 0) + 1
+                continue
         if cls.startswith('generator-'):
             raise vlib.ToolError('case %s: %s (the harness-side construction disagrees with the reference semantics)' % (cid, cls))
         if cls and any(f.get('class') == cls for f in findings):
@@ -423,6 +453,10 @@ def run_check(prop, tier, seed, t0, no_mc=False):
         # a crash / timeout is a violation only for the totality property; elsewhere it is a tool problem
         if prop in ('C01', 'C17'):
             if i not in bad_idx:
+                fid = crash_known(findings, keep[i][0], r)
+                if fid:
+                    known_hits[fid] = known_hits.get(fid, 0) + 1
+                    continue
                 violations.append((keep[i][0], r))
         else:
             raise vlib.ToolError('case %s crashed the harness (%s); see C01' % (ids[i], r.get('crash')))
